@@ -68,7 +68,15 @@ func MakeHarnessFun(f ref.FunSig, tr *Tracer) *val.Val {
 	if i := strings.IndexByte(base, '#'); i >= 0 {
 		base = base[:i]
 	}
-	force := func(t *val.Val) *val.Val { return t.Fun().Call() }
+	// a lazy function must be handed thunks (0-ary function values); the harness's
+	// lazy functions check that before the unchecked cast, so that a back end which
+	// passes evaluated values fails cleanly instead of corrupting memory
+	force := func(t *val.Val) *val.Val {
+		if t == nil || t.Type == nil || t.Type.Kind != types.KFun || len(t.Type.Fun().Param) != 0 {
+			panic("lazy function received an evaluated value instead of a thunk")
+		}
+		return t.Fun().Call()
+	}
 	switch base {
 	case "tr":
 		impl = func(args ...*val.Val) *val.Val {
